@@ -1,6 +1,7 @@
-\* the transcribed current protocol against the property: TLC is EXPECTED to report a counterexample
+\* self-test of the property: the protocols cogent3 used BEFORE the repairs (HistoricConfigs, part of the
+\* spec) must be rejected by Atomic; TLC is expected to report a counterexample.  Independent of the code.
 SPECIFICATION Spec
 CONSTANTS
-  Configs <- CurrentConfigs
+  Configs <- HistoricConfigs
   PreStates = {"absent", "Old"}
 INVARIANT Atomic
